@@ -397,6 +397,106 @@ theorem simpson_regular_4eps (f : Rat → Rat) (I : Rat → Rat → Rat)
   obtain ⟨k, m, m1, m2, h1, h2, hm, a1, a2, a3, a4⟩ := hrep p hp hl
   exact boole_error_le_four _ _ _ k m m1 m2 h1 h2 hm a1 a2 a3 a4
 
+/-! ## The run depends only on the integrand's values inside the interval (history independence) -/
+
+theorem adaptive_congr (f g : Rat → Rat) (n : Nat) :
+    ∀ a b eps S fa fb fc : Rat, a ≤ b → (∀ x, a ≤ x → x ≤ b → f x = g x) →
+      adaptive f a b eps S fa fb fc n = adaptive g a b eps S fa fb fc n := by
+  have key : ∀ a b fa fb fc : Rat, a ≤ b → (∀ x, a ≤ x → x ≤ b → f x = g x) →
+      f (dL a b) = g (dL a b) ∧ f (eR a b) = g (eR a b) ∧
+      sLeft f a b fa fc = sLeft g a b fa fc ∧ sRight f a b fb fc = sRight g a b fb fc ∧
+      s2 f a b fa fb fc = s2 g a b fa fb fc := by
+    intro a b fa fb fc hab hfg
+    have hd : f (dL a b) = g (dL a b) := hfg _ (by unfold dL; linarith) (by unfold dL; linarith)
+    have he : f (eR a b) = g (eR a b) := hfg _ (by unfold eR; linarith) (by unfold eR; linarith)
+    have hl : sLeft f a b fa fc = sLeft g a b fa fc := by
+      unfold sLeft; unfold dL at hd; rw [hd]
+    have hr : sRight f a b fb fc = sRight g a b fb fc := by
+      unfold sRight; unfold eR at he; rw [he]
+    exact ⟨hd, he, hl, hr, by unfold s2; rw [hl, hr]⟩
+  induction n with
+  | zero =>
+    intro a b eps S fa fb fc hab hfg
+    obtain ⟨_, _, _, _, h2⟩ := key a b fa fb fc hab hfg
+    rw [adaptive_zero, adaptive_zero]
+    unfold mkPanel
+    rw [h2]
+  | succ n ih =>
+    intro a b eps S fa fb fc hab hfg
+    obtain ⟨hd, he, hl, hr, h2⟩ := key a b fa fb fc hab hfg
+    have hm1 : a ≤ mid a b := by unfold mid; linarith
+    have hm2 : mid a b ≤ b := by unfold mid; linarith
+    by_cases h : Lp.rabs (s2 f a b fa fb fc - S) ≤ K.accFactor * eps
+    · rw [adaptive_succ_accept f _ _ _ _ _ _ _ _ h, adaptive_succ_accept g _ _ _ _ _ _ _ _ (h2 ▸ h)]
+      unfold mkPanel
+      rw [h2]
+    · rw [adaptive_succ_reject f _ _ _ _ _ _ _ _ h, adaptive_succ_reject g _ _ _ _ _ _ _ _ (h2 ▸ h)]
+      simp only []
+      rw [ih a (mid a b) _ _ fa fc _ hm1 (fun x h1 h2' => hfg x h1 (le_trans h2' hm2)),
+          ih (mid a b) b _ _ fc fb _ hm2 (fun x h1 h2' => hfg x (le_trans hm1 h1) h2')]
+      unfold mkPanel
+      rw [hd, he, hl, hr, h2]
+
+/-- **integrate_congr**: two integrands that agree on `[min a b, max a b]` give the identical run
+    (value, abscissae in order, warning, panels): the result is a function of the integrand's values
+    inside the interval only. -/
+theorem integrate_congr (f g : Rat → Rat) (a b eps : Rat) (depth : Int)
+    (hfg : ∀ x, min a b ≤ x → x ≤ max a b → f x = g x) :
+    integrate f a b eps depth = integrate g a b eps depth := by
+  unfold integrate
+  by_cases hab : a = b
+  · rw [if_pos hab, if_pos hab]
+  · rw [if_neg hab, if_neg hab]
+    have main : ∀ lo hi : Rat, lo ≤ hi → min a b = lo → max a b = hi →
+        f lo = g lo ∧ f hi = g hi ∧ f ((lo + hi) / 2) = g ((lo + hi) / 2) ∧
+        ∀ eps' S fa fb fc n, adaptive f lo hi eps' S fa fb fc n = adaptive g lo hi eps' S fa fb fc n := by
+      intro lo hi hle hmin hmax
+      rw [hmin, hmax] at hfg
+      exact ⟨hfg lo (le_refl _) hle, hfg hi hle (le_refl _), hfg _ (by linarith) (by linarith),
+        fun eps' S fa fb fc n => adaptive_congr f g n lo hi eps' S fa fb fc hle hfg⟩
+    by_cases hgt : a > b
+    · obtain ⟨h1, h2, h3, h4⟩ := main b a (le_of_lt hgt) (min_eq_right (le_of_lt hgt)) (max_eq_left (le_of_lt hgt))
+      simp only [if_pos hgt]
+      rw [h1, h2, h3, h4]
+    · obtain ⟨h1, h2, h3, h4⟩ := main a b (not_lt.mp hgt) (min_eq_left (not_lt.mp hgt)) (max_eq_right (not_lt.mp hgt))
+      simp only [if_neg hgt]
+      rw [h1, h2, h3, h4]
+
+/-- **integrate_nested_independent** (the obligation the `c03.nested` correspondence checks on the
+    code): an integrand that performs an arbitrary computation `work` before returning `f x` —
+    e.g. another `integrate` call with its own depth and epsilon — gives the same outer run as `f`:
+    the outer call has no state that the inner computation could touch. -/
+theorem integrate_nested_independent {σ : Type} (f : Rat → Rat) (work : Rat → σ) (a b eps : Rat) (depth : Int) :
+    integrate (fun x => (fun (_ : σ) => f x) (work x)) a b eps depth = integrate f a b eps depth := rfl
+
+/-- instance: the inner computation is itself an `integrate` run with another depth and epsilon whose
+    value is added with weight zero -/
+example (f h : Rat → Rat) (a b eps : Rat) (d1 d2 : Int) (ia ib ieps : Rat) :
+    integrate (fun x => f x + 0 * (integrate h ia ib ieps d2).val) a b eps d1 = integrate f a b eps d1 :=
+  integrate_congr _ _ a b eps d1 (fun x _ _ => by ring)
+
+/-- **simpson_eval_count_lower**: unequal limits always cost at least five evaluations (the two
+    ends, the midpoint and the two quarter points) — `Integrate` never returns without looking at the
+    integrand unless `a == b` exactly. -/
+theorem simpson_eval_count_lower (f : Rat → Rat) (a b eps : Rat) (depth : Int) (hab : a ≠ b) :
+    5 ≤ (integrate f a b eps depth).evals.length := by
+  have h2 : ∀ n a b eps S fa fb fc, 2 ≤ (adaptive f a b eps S fa fb fc n).evals.length := by
+    intro n a b eps S fa fb fc
+    cases n with
+    | zero => rw [adaptive_zero]; simp
+    | succ n =>
+      by_cases h : Lp.rabs (s2 f a b fa fb fc - S) ≤ K.accFactor * eps
+      · rw [adaptive_succ_accept _ _ _ _ _ _ _ _ _ h]; simp
+      · rw [adaptive_succ_reject _ _ _ _ _ _ _ _ _ h]; simp
+  unfold integrate
+  rw [if_neg hab]
+  simp only [List.length_cons]
+  have := h2 depth.toNat (if a > b then b else a) (if a > b then a else b) (Lp.rabs eps)
+      (((if a > b then a else b) - (if a > b then b else a)) / K.coarseDiv *
+        (f (if a > b then b else a) + K.coarseMidW * f (((if a > b then b else a) + (if a > b then a else b)) / 2) + f (if a > b then a else b)))
+      (f (if a > b then b else a)) (f (if a > b then a else b)) (f (((if a > b then b else a) + (if a > b then a else b)) / 2))
+  omega
+
 /-! ## Non-vacuity: concrete instances meeting the hypotheses -/
 
 /-- the hypotheses of `simpson_regular_4eps` are met by `x⁴` (constant fourth derivative 24:
